@@ -175,6 +175,9 @@ func c20BinGen(t *rapid.T) c20BinPlan {
 			}
 			if rapid.IntRange(0, 7).Draw(t, "invalid") == 0 {
 				c.Extra = rapid.SampledFrom([][]string{{"--max-request-body", "10"}, {"--max-response-body", "10"}, {"--tls", "--path-prefix", "/only"}}).Draw(t, "extra")
+				if c.Extra[0] == "--tls" {
+					c.Prefix, c.TLS = nil, false // TLS on a service that does not include the root path: refused
+				}
 			}
 		case "rollout-deploy":
 			c.Targets = []int{rapid.IntRange(-1, 2).Draw(t, "target")}
